@@ -48,6 +48,8 @@ def run(rep, tier, seed):
                 diffs.append(dict(case=case, what=msg))
             else:
                 fails.append((case, f"{label}: {msg}"))
+    for r, label, msg in pipeline.judge_pattern(res["records"]):
+        fails.append((dict(model=r["gm"].describe(), backend=label, point=r["point"]), f"{label}: {msg}"))
     if res.get("driver_broken"):
         broken.append(res["driver_broken"])
     st = res["stats"]
